@@ -14,8 +14,8 @@ TECHNIQUE = ('exhaustive enumeration of (ref, ref0, res_ref) assignments to the 
              'reference (converged state, inputs, residuals, totals) and the scaled-value formula')
 RULE = ('every assignment of a 9-entry scaling palette (none, scalar ref, ref/ref0/res_ref, negative '
         'ref, ref<ref0, array ref+ref0, scalar ref+array ref0, array ref+scalar ref0, array res_ref) '
-        'to each of <= 3 outputs of 4 base models (full product) x mode {fwd, rev}, plus single-output '
-        'assignments on the 1-ball of the models (linear solver, assembled jac, partial format, units, '
+        'to each of <= 3 outputs of 5 base models (full product) x mode {fwd, rev}, plus single-output '
+        'assignments on the 1-ball of the models (linear solver, assembled jac, partial format, units, rhs_checking, '
         'src_indices wiring, IVC scaling); non-trivial = at least one output carries a non-identity '
         'scaling and the model converged; each configuration is enumerated once')
 LEVEL_TEXT = ('Each scaled model is a real Problem; its converged outputs, inputs and residuals in '
@@ -57,6 +57,7 @@ BASES = [
     {'topo': 'chain', 'hier': 'allG', 'kinds': 'mix2', 'nl': 'Newton', 'ln': 'Direct',
      'units': 'm_cm'},
     {'topo': 'fanin', 'hier': 'nest2', 'kinds': 'allquad', 'wiring': 'prom1', 'units': 'degC_degF'},
+    {'topo': 'cycle_tail', 'hier': 'cycG', 'ln': 'Direct', 'rhsck': 'on'},
 ]
 
 DIMS1 = collections.OrderedDict([
@@ -70,6 +71,7 @@ DIMS1 = collections.OrderedDict([
     ('noasm', [False, True]),
     ('approx_sub', [None, 'cs', 'fd']),
     ('nlopt', [None, 'aitken', 'aitken_apply', 'apply']),
+    ('rhsck', [None, 'on', 'opts']),
 ])
 
 OUTS = ['c1.y', 'c2.y', 'c3.y']
@@ -118,7 +120,7 @@ def _cls(cfg):
     if cfg.get('ivc'):
         parts.append('ivc=%d' % cfg['ivc'])
     for n in ('topo', 'hier', 'kinds', 'nl', 'ln', 'jac', 'partials', 'units', 'wiring', 'mode',
-              'noasm', 'approx_sub', 'nlopt'):
+              'noasm', 'approx_sub', 'nlopt', 'rhsck'):
         v = cfg.get(n)
         if v not in (None, 'default', 'flat', 'lin', 'dense', 'none', 'plain', 'fwd', False):
             parts.append('%s=%s' % (n, v))
@@ -166,6 +168,11 @@ def check_case(cfg):
             if cfg.get('nl') in ('Newton', 'Broyden'):
                 return None, 'approx_sub under a root Newton/Broyden solver not generated'
             m = cfg['approx_sub']
+            if m == 'cs' and spec['cyclic'] and spec['solver_group'].startswith('G'):
+                # the imaginary part of a complex step through an iterative nonlinear solver is only
+                # converged as far as the solver's real-norm test happens to take it (1e-5 relative
+                # error on the unscaled model already): an approximation-accuracy question, not C08
+                return None, 'complex step through an iterative solver not generated'
             spec['groups'].setdefault('G', {})['approx'] = (
                 {'method': 'cs'} if m == 'cs' else {'method': 'fd', 'form': 'central', 'step': 1e-4})
             spec['force_alloc_complex'] = True
